@@ -1,0 +1,37 @@
+//go:build verif
+
+// Contracts for govc (see /verif/DESIGN.md). Comment-only file.
+
+package meta
+
+//@ property C16
+
+// Per table statistics are kept as a stored (btree) count plus one delta per un-persisted layer,
+// parallel to the index overlay layers. Merging replaces the first 1+nmerged deltas by one delta,
+// persisting folds the base delta into the stored counts; the remaining deltas keep their order,
+// and the previous Deltas slice (shared with older states) is never written.
+//@ func (mu MergeUpdate) Apply1(ti)
+//@   requires ti != nil && 0 <= mu.nmerged && mu.nmerged < len(ti.Deltas)
+//@   requires forall k :: 0 <= k && k < len(ti.Deltas) ==> -1000000000000 <= ti.Deltas[k].Nrows && ti.Deltas[k].Nrows <= 1000000000000 && -1000000000000 <= ti.Deltas[k].Size && ti.Deltas[k].Size <= 1000000000000
+//@   requires len(ti.Deltas) <= 1000000
+//@   modifies ti.Deltas
+//@   ensures! shape: fresh(ti.Deltas) && len(ti.Deltas) == old(len(ti.Deltas)) - mu.nmerged
+//@   ensures! rest_kept_in_order: forall k :: 1 <= k && k < len(ti.Deltas) ==> ti.Deltas[k] == old(ti.Deltas[k + mu.nmerged])
+//@   ensures! single: mu.nmerged == 0 ==> ti.Deltas[0] == old(ti.Deltas[0])
+//@   ensures! pair: mu.nmerged == 1 ==> ti.Deltas[0].Nrows == old(ti.Deltas[0].Nrows) + old(ti.Deltas[1].Nrows) && ti.Deltas[0].Size == old(ti.Deltas[0].Size) + old(ti.Deltas[1].Size)
+//@   loop 0 invariant -1 <= rangeindex && rangeindex <= mu.nmerged && -1000000000000 * (rangeindex + 1) <= sum.Nrows && sum.Nrows <= 1000000000000 * (rangeindex + 1) && -1000000000000 * (rangeindex + 1) <= sum.Size && sum.Size <= 1000000000000 * (rangeindex + 1)
+//@   loop 0 invariant first: (rangeindex == -1 ==> sum.Nrows == 0 && sum.Size == 0) && (rangeindex == 0 ==> sum.Nrows == ti.Deltas[0].Nrows && sum.Size == ti.Deltas[0].Size) && (rangeindex == 1 ==> sum.Nrows == ti.Deltas[0].Nrows + ti.Deltas[1].Nrows && sum.Size == ti.Deltas[0].Size + ti.Deltas[1].Size)
+//@   loop 0 invariant frame()
+//@ func (pu PersistUpdate) Apply1(ti)
+//@   requires ti != nil && len(ti.Deltas) >= 1 && -1000000000000 <= ti.BtreeNrows && ti.BtreeNrows <= 1000000000000 && -1000000000000 <= ti.Deltas[0].Nrows && ti.Deltas[0].Nrows <= 1000000000000 && -1000000000000 <= ti.BtreeSize && ti.BtreeSize <= 1000000000000 && -1000000000000 <= ti.Deltas[0].Size && ti.Deltas[0].Size <= 1000000000000
+//@   modifies ti.BtreeNrows, ti.BtreeSize, ti.Deltas
+//@   panics_if ti.BtreeNrows + ti.Deltas[0].Nrows < 0 || ti.BtreeSize + ti.Deltas[0].Size < 0
+//@   ensures! folded: ti.BtreeNrows == old(ti.BtreeNrows) + old(ti.Deltas[0].Nrows) && ti.BtreeSize == old(ti.BtreeSize) + old(ti.Deltas[0].Size)
+//@   ensures! base_reset: fresh(ti.Deltas) && len(ti.Deltas) == old(len(ti.Deltas)) && ti.Deltas[0].Nrows == 0 && ti.Deltas[0].Size == 0
+//@   ensures! rest_kept_in_order: forall k :: 1 <= k && k < len(ti.Deltas) ==> ti.Deltas[k] == old(ti.Deltas[k])
+//@ func (mu MergeUpdate) Apply2(ov, i) (r)
+//@   requires ov != nil && 0 <= i && i < len(mu.results) && 0 <= mu.nmerged && mu.nmerged < len(ov.layers)
+//@   ensures! r != nil && fresh(r) && r.bt == ov.bt && r.mut == nil && len(r.layers) == len(ov.layers) - mu.nmerged && r.layers[0] == mu.results[i] && forall k :: 1 <= k && k < len(r.layers) ==> r.layers[k] == ov.layers[k + mu.nmerged]
+//@ func (pu PersistUpdate) Apply2(ov, i) (r)
+//@   requires ov != nil && 0 <= i && i < len(pu.results) && len(ov.layers) >= 1
+//@   ensures! r != nil && fresh(r) && r.bt == pu.results[i] && r.mut == nil && len(r.layers) == len(ov.layers) && forall k :: 1 <= k && k < len(r.layers) ==> r.layers[k] == ov.layers[k]
